@@ -2,8 +2,8 @@
    document (multi-segment mode).  The work is the induction over the list of segments, with the
    frame facts (what later statements leave alone) that the per-segment theorems do not state. *)
 From Slinky Require Import Model.Types Model.Generated Model.Runtime Model.Style Model.Script Model.Writer Model.LdSem.
-From Slinky Require Import Spec.C17 Spec.C04 Spec.C03 Spec.C05 Spec.C10 Spec.DocLevel.
-From Slinky Require Import Proofs.C06 Proofs.C18 Proofs.C17 Proofs.LdLemmas Proofs.C04 Proofs.C03 Proofs.C10.
+From Slinky Require Import Spec.C17 Spec.C04 Spec.C03 Spec.C09 Spec.C05 Spec.C10 Spec.DocLevel.
+From Slinky Require Import Proofs.C06 Proofs.C18 Proofs.C17 Proofs.LdLemmas Proofs.C09 Proofs.C05 Proofs.C04 Proofs.C03 Proofs.C10.
 From Coq Require Import Lia ZArith.
 Local Open Scope Z_scope.
 
@@ -723,3 +723,444 @@ Theorem document_classes_layout d rt w u ext0 cn :
   let p2 := exec_script (l_syms p1) (l_secs p1) (ext0 ++ markers_of p1)%list false (wo_script w) (init_state u) in
   ClassSummary sty (l_syms p2) (ext0 ++ markers_of p2)%list (layout (wo_script w) u ext0) rt (doc_segments d) cn.
 Proof. intros Hg Hwf Hcn sty p1 p2. unfold layout. apply document_classes; assumption. Qed.
+
+(* ====================================================================== *)
+(* 4. section groups over the whole document                               *)
+(* ====================================================================== *)
+
+(* ---------- counting assignments at any depth ---------- *)
+
+Section StmtDeepInd.
+  Variable P : stmt -> Prop.
+  Hypothesis Hleaf : forall s, match s with SOutSec _ _ _ _ _ _ | SSections _ => False | _ => True end -> P s.
+  Hypothesis Hout : forall n a at_ nl sub body, Forall P body -> P (SOutSec n a at_ nl sub body).
+  Hypothesis Hsec : forall body, Forall P body -> P (SSections body).
+
+  Fixpoint stmt_deep_ind (s : stmt) : P s :=
+    let go := fix go (l : list stmt) : Forall P l :=
+                match l with
+                | [] => Forall_nil P
+                | x :: r => Forall_cons x (stmt_deep_ind x) (go r)
+                end in
+    match s with
+    | SOutSec n a at_ nl sub body => Hout n a at_ nl sub body (go body)
+    | SSections body => Hsec body (go body)
+    | SComment t => Hleaf (SComment t) I
+    | SBlank => Hleaf SBlank I
+    | SAssign p h r sym e => Hleaf (SAssign p h r sym e) I
+    | SAlign sym n => Hleaf (SAlign sym n) I
+    | SMaxSelf a b => Hleaf (SMaxSelf a b) I
+    | SRomAdd sec => Hleaf (SRomAdd sec) I
+    | SDotAdd n => Hleaf (SDotAdd n) I
+    | SFill n => Hleaf (SFill n) I
+    | SInput k p m sect w => Hleaf (SInput k p m sect w) I
+    | SSingleEntry sect => Hleaf (SSingleEntry sect) I
+    | SDiscard pats w => Hleaf (SDiscard pats w) I
+    | SEntry e => Hleaf (SEntry e) I
+    | SExtern e => Hleaf (SExtern e) I
+    | SAssert c m => Hleaf (SAssert c m) I
+    end.
+End StmtDeepInd.
+
+Lemma existsb_count_list x body :
+  Forall (fun s => assigns x s = false <-> assign_count x s = 0%nat) body ->
+  (existsb (assigns x) body = false <-> list_sum (map (assign_count x) body) = 0%nat).
+Proof.
+  induction 1 as [|s l Hs Hl IH]; [cbn; tauto|]. cbn [existsb map].
+  change (list_sum (assign_count x s :: map (assign_count x) l))
+    with (assign_count x s + list_sum (map (assign_count x) l))%nat.
+  rewrite orb_false_iff. split.
+  - intros [A B]. apply Hs in A. apply IH in B. lia.
+  - intro Hsum. assert (Ha : assign_count x s = 0%nat) by lia.
+    assert (Hb : list_sum (map (assign_count x) l) = 0%nat) by lia.
+    split; [apply Hs; exact Ha | apply IH; exact Hb].
+Qed.
+
+Lemma assigns_count x s : assigns x s = false <-> assign_count x s = 0%nat.
+Proof.
+  induction s as [s Hs | n a at_ nl sub body IH | body IH] using stmt_deep_ind.
+  - destruct s; try destruct Hs; cbn [assigns assign_count];
+      try (destruct (String.eqb _ _)); split; intro H; try reflexivity; try discriminate.
+  - cbn [assigns assign_count]. apply existsb_count_list. exact IH.
+  - cbn [assigns assign_count]. apply existsb_count_list. exact IH.
+Qed.
+
+Lemma existsb_count x l : existsb (assigns x) l = false <-> count_assigns x l = 0%nat.
+Proof. apply existsb_count_list. apply Forall_forall. intros s _. apply assigns_count. Qed.
+
+Lemma count_app x a b : count_assigns x (a ++ b) = (count_assigns x a + count_assigns x b)%nat.
+Proof. unfold count_assigns. rewrite map_app, list_sum_app. reflexivity. Qed.
+
+Lemma count_cons x s l : count_assigns x (s :: l) = (assign_count x s + count_assigns x l)%nat.
+Proof. reflexivity. Qed.
+
+Lemma count_in_ge x l s : In s l -> assigns x s = true -> (1 <= count_assigns x l)%nat.
+Proof.
+  induction l as [|y r IH]; intros Hin Hs; [contradiction|]. rewrite count_cons. destruct Hin as [E|Hin].
+  - subst y. destruct (assign_count x s) eqn:Ec; [|lia].
+    apply assigns_count in Ec. rewrite Ec in Hs. discriminate.
+  - specialize (IH Hin Hs). lia.
+Qed.
+
+Lemma count_opt_fill x seg : count_assigns x (opt_fill seg) = 0%nat.
+Proof. unfold opt_fill. destruct (fill_value seg); reflexivity. Qed.
+
+(* ---------- the symbols of a section group ---------- *)
+
+Definition sec_syms3 (sty : style) (name sec : string) : list string :=
+  [segment_section_start sty name sec; segment_section_end sty name sec; segment_section_size sty name sec].
+
+Lemma group_head_assigned rt sty cfg seg sec files x :
+  section_syms cfg = true -> In x (sec_syms3 sty (sg_name seg) sec) ->
+  (1 <= count_assigns x (section_symbol_start rt sty cfg seg sec ++ files ++ section_symbol_end sty cfg seg sec))%nat.
+Proof.
+  intros Hc Hx. unfold section_symbol_start, section_symbol_end, sym_end_size. rewrite Hc.
+  destruct Hx as [Ex|[Ex|[Ex|[]]]]; subst x.
+  - apply count_in_ge with (s := linker_symbol (segment_section_start sty (sg_name seg) sec) EDot);
+      [in_solve | apply String.eqb_refl].
+  - apply count_in_ge with (s := linker_symbol (segment_section_end sty (sg_name seg) sec) EDot);
+      [in_solve | apply String.eqb_refl].
+  - apply count_in_ge
+      with (s := linker_symbol (segment_section_size sty (sg_name seg) sec)
+                               (EAbsSub (segment_section_end sty (sg_name seg) sec)
+                                        (segment_section_start sty (sg_name seg) sec)));
+      [in_solve | apply String.eqb_refl].
+Qed.
+
+Lemma group_syms_assigned rt stg cfg seg sections rest : forall ws body ws',
+  part_groups rt stg cfg seg sections rest ws = Ok (body, ws') -> section_syms cfg = true ->
+  forall sec, In sec rest -> forall x, In x (sec_syms3 (linker_symbols_style stg) (sg_name seg) sec) ->
+  (1 <= count_assigns x body)%nat.
+Proof.
+  induction rest as [|sec0 rest IH]; intros ws body ws' H Hc sec Hin x Hx; [contradiction|].
+  apply part_groups_cons in H. destruct H as [s1 [ws1 [s2 [E1 [E2 E]]]]]. subst body.
+  destruct Hin as [Es|Hin].
+  - subst sec0. pose proof (group_head_assigned rt (linker_symbols_style stg) cfg seg sec s1 x Hc Hx) as Hge.
+    rewrite !count_app in *. lia.
+  - pose proof (IH _ _ _ E2 Hc sec Hin x Hx) as Hge. rewrite !count_app. lia.
+Qed.
+
+Lemma GroupChain_frame sty syms placed syms' placed' name outsec secs : forall lo hi,
+  (forall sec x, In sec secs -> In x (sec_syms3 sty name sec) -> lookup x syms' = lookup x syms) ->
+  (exists a b, placed' = (a ++ placed ++ b)%list) ->
+  GroupChain sty syms placed name outsec lo secs hi -> GroupChain sty syms' placed' name outsec lo secs hi.
+Proof.
+  induction secs as [|sec rest IH]; intros lo hi Hs [a0 [b0 Hp]] H; [exact H|]. cbn [GroupChain] in *.
+  destruct H as (S & E & pre & new & post & L1 & L2 & L3 & B1 & B2 & P & F & Hrest).
+  exists S, E, (a0 ++ pre)%list, new, (post ++ b0)%list.
+  split; [rewrite (Hs sec _ (or_introl eq_refl) (or_introl eq_refl)); exact L1|].
+  split; [rewrite (Hs sec _ (or_introl eq_refl) (or_intror (or_introl eq_refl))); exact L2|].
+  split; [rewrite (Hs sec _ (or_introl eq_refl) (or_intror (or_intror (or_introl eq_refl)))); exact L3|].
+  split; [exact B1|]. split; [exact B2|].
+  split; [rewrite Hp, P; repeat rewrite <- app_assoc; reflexivity|].
+  split; [exact F|].
+  apply IH; [intros s0 x Hin Hx; apply (Hs s0 x); [right; exact Hin | exact Hx] | exists a0, b0; exact Hp | exact Hrest].
+Qed.
+
+Section DocGroups.
+  Variables (env : list (string * Z)) (senv : list osec) (ext : list (string * Z)) (final : bool).
+  Notation top := (exec_top_stmt env senv ext final).
+  Notation runl := (run env senv ext final).
+  Notation secs vma sub name := (exec_sec_stmt env senv ext final vma sub name).
+
+  (* ---------- the placements only grow ---------- *)
+
+  Lemma sec_stmt_placed vma sub name ss s :
+    exists new, l_placed (s_st (secs vma sub name ss s)) = (l_placed (s_st ss) ++ new)%list.
+  Proof.
+    destruct (sec_stmt_cases env senv ext final vma sub name ss s)
+      as [[p [h [r [sym [e [Es E]]]]]] | [[k [path [member [sect [wild [off' [pls [c [Es [Ep E]]]]]]]]]] | [E _]]];
+      rewrite E.
+    - exists []. cbn [s_st]. rewrite Proofs.C04.assign_placed, app_nil_r. reflexivity.
+    - exists pls. reflexivity.
+    - exists []. rewrite app_nil_r. reflexivity.
+  Qed.
+
+  Lemma sec_fold_placed vma sub name body : forall ss,
+    exists new, l_placed (s_st (fold_left (secs vma sub name) body ss)) = (l_placed (s_st ss) ++ new)%list.
+  Proof.
+    induction body as [|s body IH]; intro ss; [exists []; rewrite app_nil_r; reflexivity|]. cbn [fold_left].
+    destruct (IH (secs vma sub name ss s)) as [n1 E1]. destruct (sec_stmt_placed vma sub name ss s) as [n2 E2].
+    exists (n2 ++ n1)%list. rewrite E1, E2, app_assoc. reflexivity.
+  Qed.
+
+  Lemma top_placed st s : exists new, l_placed (top st s) = (l_placed st ++ new)%list.
+  Proof.
+    assert (Hsame : l_placed (top st s) = l_placed st -> exists new, l_placed (top st s) = (l_placed st ++ new)%list).
+    { intro E. exists []. rewrite app_nil_r. exact E. }
+    destruct s; try (apply Hsame; reflexivity); cbn [exec_top_stmt].
+    - apply Hsame. cbn [exec_top_stmt]. destruct (String.eqb sym ".").
+      + destruct (eval_expr env senv ext st (l_dot st) e); reflexivity.
+      + apply Proofs.C04.assign_placed.
+    - apply Hsame. cbn [exec_top_stmt]. destruct (String.eqb sym "."); [reflexivity|].
+      destruct (sym_lookup sym st env ext); reflexivity.
+    - apply Hsame. cbn [exec_top_stmt].
+      destruct (sym_lookup sym st env ext); [destruct (sym_lookup other st env ext)|];
+        try (destruct final; reflexivity).
+    - apply Hsame. cbn [exec_top_stmt].
+      destruct (sym_lookup "__romPos" st env ext); [destruct (sec_lookup sec st senv)|];
+        try (destruct final; reflexivity).
+    - destruct (outsec_vma env senv ext addr sub body st) as [vma|e] eqn:E.
+      + destruct (exec_outsec_ok env senv ext final name addr at_ noload sub body st vma E)
+          as [_ [_ [_ [_ [Hp _]]]]]. rewrite Hp. unfold outsec_body.
+        apply (sec_fold_placed vma (option_map Z.of_N sub) name body (SState 0 false st)).
+      + rewrite (exec_outsec_err _ _ _ _ _ _ _ _ _ _ _ _ E). exists []. rewrite app_nil_r. reflexivity.
+    - destruct (place 0 None sect _ 0 [] false) as [[off' pls] c]. exists pls. reflexivity.
+    - apply Hsame. cbn [exec_top_stmt].
+      destruct (eval_raw env ext st cond) as [v|e]; [destruct (v =? 0); reflexivity|].
+      destruct e; destruct final; reflexivity.
+  Qed.
+
+  Lemma run_placed l : forall st, exists new, l_placed (runl l st) = (l_placed st ++ new)%list.
+  Proof.
+    induction l as [|s l IH]; intro st; [exists []; rewrite app_nil_r; reflexivity|].
+    rewrite run_cons. destruct (IH (top st s)) as [n1 E1]. destruct (top_placed st s) as [n2 E2].
+    exists (n2 ++ n1)%list. rewrite E1, E2, app_assoc. reflexivity.
+  Qed.
+
+  (* ---------- the groups of one output section, inside the section ---------- *)
+
+  Lemma groups_fold vma sub outsec rt stg cfg seg sections rest : forall ws body ws' ss,
+    section_syms cfg = true ->
+    part_groups rt stg cfg seg sections rest ws = Ok (body, ws') ->
+    (forall sec x, In sec rest -> In x (sec_syms3 (linker_symbols_style stg) (sg_name seg) sec) ->
+                   count_assigns x body = 1%nat) ->
+    nonneg_sizes (l_remaining (s_st ss)) ->
+    let ss' := fold_left (secs vma sub outsec) body ss in
+    GroupChain (linker_symbols_style stg) (l_syms (s_st ss')) (l_placed (s_st ss')) (sg_name seg) outsec
+               (vma + s_off ss) rest (vma + s_off ss') /\
+    (exists new, l_placed (s_st ss') = (l_placed (s_st ss) ++ new)%list) /\
+    nonneg_sizes (l_remaining (s_st ss')).
+  Proof.
+    induction rest as [|sec rest IH]; intros ws body ws' ss Hc H Hcnt Hn ss'.
+    - apply ok_inj in H. inversion H; subst body ws'. subst ss'. cbn [fold_left GroupChain].
+      split; [lia|]. split; [exists []; rewrite app_nil_r; reflexivity | exact Hn].
+    - apply part_groups_cons in H. destruct H as [s1 [ws1 [s2 [E1 [E2 E]]]]].
+      set (sty := linker_symbols_style stg) in *.
+      set (G := (section_symbol_start rt sty cfg seg sec ++ s1 ++ section_symbol_end sty cfg seg sec)%list).
+      set (bl := match rest with [] => [] | _ :: _ => [SBlank] end) in *.
+      assert (Eb : body = (G ++ bl ++ s2)%list).
+      { rewrite E. unfold G. repeat rewrite <- app_assoc. reflexivity. }
+      pose proof (group_bracket env senv ext final vma sub outsec rt sty cfg seg sections (base_path stg) sec
+                                ws s1 ws1 ss Hc E1 Hn) as HB.
+      cbv zeta in HB. fold G in HB.
+      set (ss1 := fold_left (secs vma sub outsec) G ss) in *.
+      destruct HB as (S & E' & new & news & restsyms & L1 & L2 & L3 & B1 & B2 & B3 & P1 & P2 & _ & _ & _ & N1).
+      assert (Ebl : fold_left (secs vma sub outsec) bl ss1 = ss1) by (unfold bl; destruct rest; reflexivity).
+      subst ss'. rewrite Eb, !fold_left_app. fold ss1. rewrite Ebl.
+      assert (HT0 : forall x, In x (sec_syms3 sty (sg_name seg) sec) -> existsb (assigns x) s2 = false).
+      { intros x Hx. apply existsb_count. pose proof (Hcnt sec x (or_introl eq_refl) Hx) as Hc1.
+        rewrite Eb, !count_app in Hc1.
+        pose proof (group_head_assigned rt sty cfg seg sec s1 x Hc Hx) as HG. fold G in HG. lia. }
+      assert (Hs2cnt : forall sec' x, In sec' rest -> In x (sec_syms3 sty (sg_name seg) sec') ->
+                                      count_assigns x s2 = 1%nat).
+      { intros sec' x Hin Hx. pose proof (Hcnt sec' x (or_intror Hin) Hx) as Hc1.
+        rewrite Eb, !count_app in Hc1.
+        pose proof (group_syms_assigned _ _ _ _ _ _ _ _ _ E2 Hc sec' Hin x Hx) as Hge. lia. }
+      destruct (IH ws1 s2 ws' ss1 Hc E2 Hs2cnt N1) as [Hchain [[new2 Hp2] Hn2]]. cbv zeta in Hchain, Hp2, Hn2.
+      set (ss2 := fold_left (secs vma sub outsec) s2 ss1) in *.
+      split; [|split; [exists (new ++ new2)%list; rewrite Hp2, P1, app_assoc; reflexivity | exact Hn2]].
+      cbn [GroupChain]. exists S, E', (l_placed (s_st ss)), new, new2.
+      split.
+      { unfold ss2. rewrite sec_fold_syms; [exact L1 | apply HT0; left; reflexivity]. }
+      split.
+      { unfold ss2. rewrite sec_fold_syms; [exact L2 | apply HT0; right; left; reflexivity]. }
+      split.
+      { unfold ss2. rewrite sec_fold_syms; [exact L3 | apply HT0; right; right; left; reflexivity]. }
+      split; [exact B1|]. split; [exact B2|].
+      split; [rewrite Hp2, P1, <- app_assoc; reflexivity|].
+      split; [exact P2|]. rewrite B3. exact Hchain.
+  Qed.
+
+  (* ---------- one output section in the middle of a statement list ---------- *)
+
+  Lemma outsec_groups rt stg cfg seg sections ws gbody ws' name addr at_ noload A B st0 :
+    let sty := linker_symbols_style stg in
+    let O := SOutSec name addr at_ noload (subalign seg) (opt_fill seg ++ gbody) in
+    let L := (A ++ O :: B)%list in
+    section_syms cfg = true ->
+    part_groups rt stg cfg seg sections sections ws = Ok (gbody, ws') ->
+    (forall sec x, In sec sections -> In x (sec_syms3 sty (sg_name seg) sec) -> count_assigns x L = 1%nat) ->
+    sizes_ok st0 ->
+    (forall e, outsec_vma env senv ext addr (subalign seg) (opt_fill seg ++ gbody) (runl A st0) <> Err e) ->
+    find_sec name (l_secs (runl A st0)) = None ->
+    let st' := runl L st0 in
+    exists o, find_sec name (l_secs st') = Some o /\ os_noload o = noload /\
+      GroupChain sty (l_syms st') (l_placed st') (sg_name seg) name (os_vma o) sections (os_vma o + os_size o).
+  Proof.
+    intros sty O L Hc Hg Hcnt Hsz Hvma Hfresh st'.
+    set (stA := runl A st0) in *.
+    assert (HszA : sizes_ok stA) by (apply run_remaining_Forall; exact Hsz).
+    destruct (outsec_vma env senv ext addr (subalign seg) (opt_fill seg ++ gbody) stA) as [vma|e] eqn:Ev;
+      [|exfalso; eapply Hvma; reflexivity].
+    pose proof (exec_outsec_ok env senv ext final name addr at_ noload (subalign seg) (opt_fill seg ++ gbody)
+                               stA vma Ev) as HO.
+    cbv zeta in HO. destruct HO as [_ [Hsyms [_ [Hsecs [Hplaced _]]]]].
+    set (ss := outsec_body env senv ext final name (subalign seg) (opt_fill seg ++ gbody) vma stA) in *.
+    set (stO := exec_outsec env senv ext final name addr at_ noload (subalign seg) (opt_fill seg ++ gbody) stA) in *.
+    assert (Ess : ss = fold_left (secs vma (option_map Z.of_N (subalign seg)) name) gbody (SState 0 false stA)).
+    { unfold ss, outsec_body. rewrite fold_left_app. unfold opt_fill. destruct (fill_value seg); reflexivity. }
+    assert (HcntO : forall sec x, In sec sections -> In x (sec_syms3 sty (sg_name seg) sec) ->
+                                  count_assigns x gbody = 1%nat /\ count_assigns x B = 0%nat).
+    { intros sec x Hin Hx. pose proof (Hcnt sec x Hin Hx) as H1. unfold L in H1.
+      rewrite count_app, count_cons in H1. unfold O in H1. cbn [assign_count] in H1.
+      change (list_sum (map (assign_count x) (opt_fill seg ++ gbody))) with (count_assigns x (opt_fill seg ++ gbody)) in H1.
+      rewrite count_app, count_opt_fill in H1.
+      pose proof (group_syms_assigned _ _ _ _ _ _ _ _ _ Hg Hc sec Hin x Hx) as Hge. fold sty in Hge. lia. }
+    destruct (groups_fold vma (option_map Z.of_N (subalign seg)) name rt stg cfg seg sections sections ws gbody ws'
+                          (SState 0 false stA) Hc Hg (fun sec x Hin Hx => proj1 (HcntO sec x Hin Hx)) HszA)
+      as [Hchain _].
+    cbv zeta in Hchain. rewrite <- Ess in Hchain. cbn [s_off s_st] in Hchain. rewrite Z.add_0_r in Hchain.
+    assert (Est' : st' = runl B stO).
+    { unfold st', L. rewrite run_app, run_cons. reflexivity. }
+    destruct (run_secs env senv ext final B stO) as [newsec [En _]].
+    destruct (run_placed B stO) as [newp Enp].
+    eexists. split.
+    { rewrite Est', En, Hsecs. apply find_sec_app. rewrite find_sec_app_none by exact Hfresh.
+      unfold find_sec. cbn [find os_name]. rewrite String.eqb_refl. reflexivity. }
+    cbn [os_noload os_vma os_size]. split; [reflexivity|].
+    rewrite Est'. eapply GroupChain_frame; [| |exact Hchain].
+    - intros sec x Hin Hx. rewrite run_syms; [rewrite Hsyms; reflexivity|].
+      apply existsb_count. apply (HcntO sec x Hin Hx).
+    - exists [], newp. rewrite Enp, Hplaced. reflexivity.
+  Qed.
+
+  (* ---------- finding a segment in the fold ---------- *)
+
+  Lemma fold_segment_split rt stg cfg classes segs : forall ws body ws' seg,
+    fold_out (add_segment rt stg cfg classes) segs ws = Ok (body, ws') -> In seg (included rt segs) ->
+    NoDup (out_names (included rt segs)) ->
+    exists b1 wsa s1 wsb b2,
+      add_segment rt stg cfg classes seg wsa = Ok (s1, wsb) /\ body = (b1 ++ s1 ++ b2)%list /\
+      ~ In (alloc_name seg) (flat_map makes_sec b1) /\ ~ In (noload_name seg) (flat_map makes_sec b1).
+  Proof.
+    induction segs as [|x r IH]; intros ws body ws' seg H Hin Hnd; [contradiction|].
+    apply fold_out_cons in H. destruct H as [s1 [ws1 [s2 [E1 [E2 E]]]]]. subst body.
+    unfold included in Hin, Hnd. cbn [filter] in Hin, Hnd.
+    pose proof (makes_sec_add_segment _ _ _ _ _ _ _ _ E1) as Hms.
+    destruct (should_emit rt (sg_conds x)) eqn:Hc.
+    - destruct Hin as [Ex|Hin].
+      + subst x. exists [], ws, s1, ws1, s2. split; [exact E1|]. split; [reflexivity|]. split; intros [].
+      + cbn [out_names flat_map app] in Hnd. inversion Hnd as [|a l Hn1 Hnd1]; subst a l.
+        inversion Hnd1 as [|a l Hn2 Hnd2]; subst a l.
+        destruct (IH _ _ _ seg E2 Hin Hnd2) as (b1 & wsa & s0 & wsb & b2 & Ea & Eb & F1 & F2).
+        assert (Ha : In (alloc_name seg) (out_names (filter (fun s => should_emit rt (sg_conds s)) r))).
+        { unfold out_names. apply in_flat_map. exists seg. split; [exact Hin | left; reflexivity]. }
+        assert (Hb : In (noload_name seg) (out_names (filter (fun s => should_emit rt (sg_conds s)) r))).
+        { unfold out_names. apply in_flat_map. exists seg. split; [exact Hin | right; left; reflexivity]. }
+        exists (s1 ++ b1)%list, wsa, s0, wsb, b2. split; [exact Ea|].
+        split; [rewrite Eb, <- app_assoc; reflexivity|].
+        rewrite flat_map_app, Hms. split; intro Hbad; apply in_app_or in Hbad; destruct Hbad as [Hbad|Hbad].
+        * destruct Hbad as [Eq|[Eq|[]]].
+          -- apply Hn1. right. rewrite Eq. exact Ha.
+          -- apply Hn2. rewrite Eq. exact Ha.
+        * exact (F1 Hbad).
+        * destruct Hbad as [Eq|[Eq|[]]].
+          -- apply Hn1. right. rewrite Eq. exact Hb.
+          -- apply Hn2. rewrite Eq. exact Hb.
+        * exact (F2 Hbad).
+    - destruct (IH _ _ _ seg E2 Hin Hnd) as (b1 & wsa & s0 & wsb & b2 & Ea & Eb & F1 & F2).
+      exists (s1 ++ b1)%list, wsa, s0, wsb, b2. split; [exact Ea|].
+      split; [rewrite Eb, <- app_assoc; reflexivity|].
+      rewrite flat_map_app, Hms. cbn [app]. split; assumption.
+  Qed.
+
+  Lemma makes_sec_begin stg : flat_map makes_sec (begin_sections_body stg) = [].
+  Proof.
+    rewrite begin_sections_rom. unfold hardcoded_gp_stmts. destruct (hardcoded_gp_value stg); reflexivity.
+  Qed.
+
+  Lemma alloc_noload_neq seg : alloc_name seg <> noload_name seg.
+  Proof.
+    unfold alloc_name, noload_name. intro E. apply (f_equal String.length) in E.
+    rewrite !str_length_app in E. cbn [String.length] in E. lia.
+  Qed.
+
+  (* ---------- C05_document_groups ---------- *)
+
+  Theorem document_groups d rt w u seg :
+    gen_normal d rt = Ok w -> doc_link_wf d rt = true ->
+    Forall (fun x => 0 <= u_size x) u ->
+    In seg (included rt (doc_segments d)) ->
+    let sty := linker_symbols_style (doc_settings d) in
+    let st' := exec_script env senv ext final (wo_script w) (init_state u) in
+    ~ In (LForwardRef (alloc_name seg)) (l_errors st') ->
+    SegmentGroups sty st' seg.
+  Proof.
+    intros Hg Hwf Hu Hin sty st' Herr.
+    destruct (doc_exec d rt w Hg Hwf) as (body & ws' & E & Hnd & Hseg & _ & _ & Hexec).
+    set (stg := doc_settings d) in *. set (classes := doc_vram_classes d) in *.
+    set (fin := (end_sections_body stg classes ws' ++ tail_stmts rt d)%list) in *.
+    unfold st' in *. rewrite Hexec in *. clear Hexec st'.
+    destruct (seg_wf_parts _ _ _ (Hseg seg Hin)) as [_ [_ [_ Hsecs]]].
+    destruct (fold_segment_split _ _ _ _ _ _ _ _ _ E Hin Hnd) as (b1 & wsa & s1 & wsb & b2 & Ea & Eb & Fr1 & Fr2).
+    apply filter_In in Hin. destruct Hin as [_ Hc].
+    apply add_segment_inv in Ea.
+    destruct Ea as [[Hc' _] | [_ [cls [ws1 [s1a [ws2 [s2a [Ec [E1 [E2 Es1]]]]]]]]]]; [congruence|].
+    apply write_segment_inv in E1. destruct E1 as [body1 [Hg1 E1]]. rewrite alloc_name_outsec in E1.
+    apply write_segment_inv in E2. destruct E2 as [body2 [Hg2 E2]]. rewrite noload_name_outsec in E2.
+    fold sty in E1, E2.
+    set (ks := sections_kind_start sty cfg_normal seg false) in *.
+    set (ke := sections_kind_end sty cfg_normal seg false) in *.
+    set (ks2 := sections_kind_start sty cfg_normal seg true) in *.
+    set (ke2 := sections_kind_end sty cfg_normal seg true) in *.
+    set (O1 := SOutSec (alloc_name seg) (segment_addr sty seg) (Some (segment_rom_start sty (sg_name seg))) false
+                       (subalign seg) (opt_fill seg ++ body1)) in *.
+    set (O2 := SOutSec (noload_name seg) None None true (subalign seg) (opt_fill seg ++ body2)) in *.
+    set (all := (begin_sections_body stg ++ body ++ fin)%list) in *.
+    set (A1 := (begin_sections_body stg ++ b1 ++ cls ++ seg_head stg seg ++ ks)%list).
+    set (B1 := (ke ++ [SBlank] ++ s2a ++ [SBlank] ++ seg_foot stg seg ++ b2 ++ fin)%list).
+    set (A2 := (begin_sections_body stg ++ b1 ++ cls ++ seg_head stg seg ++ s1a ++ [SBlank] ++ ks2)%list).
+    set (B2 := (ke2 ++ [SBlank] ++ seg_foot stg seg ++ b2 ++ fin)%list).
+    assert (EL1 : all = (A1 ++ O1 :: B1)%list).
+    { unfold all, A1, B1. rewrite Eb, Es1, E1. repeat (rewrite <- app_assoc; cbn [app]). reflexivity. }
+    assert (EL2 : all = (A2 ++ O2 :: B2)%list).
+    { unfold all, A2, B2. rewrite Eb, Es1, E2. repeat (rewrite <- app_assoc; cbn [app]). reflexivity. }
+    assert (Hcnt : forall sec x, In sec (seg_sections seg) -> In x (sec_syms3 sty (sg_name seg) sec) ->
+                                 count_assigns x all = 1%nat).
+    { intros sec x Hs Hx. specialize (Hsecs sec Hs). unfold section_names_once, assigned_once_deep in Hsecs.
+      apply andb_true_iff in Hsecs. destruct Hsecs as [Hsecs H3]. apply andb_true_iff in Hsecs.
+      destruct Hsecs as [H1 H2]. apply Nat.eqb_eq in H1. apply Nat.eqb_eq in H2. apply Nat.eqb_eq in H3.
+      destruct Hx as [Ex|[Ex|[Ex|[]]]]; subst x; assumption. }
+    split.
+    - rewrite EL1 in Herr, Hcnt |- *.
+      apply (outsec_groups rt stg cfg_normal seg (alloc_sections seg) ws1 body1 ws2 (alloc_name seg)
+                           (segment_addr sty seg) (Some (segment_rom_start sty (sg_name seg))) false A1 B1
+                           (init_state u) eq_refl Hg1).
+      + intros sec x Hs Hx. apply (Hcnt sec x); [apply in_or_app; left; exact Hs | exact Hx].
+      + exact Hu.
+      + intros e Ev. apply Herr. rewrite run_app, run_cons. apply run_errors_in.
+        unfold O1. cbn [exec_top_stmt]. rewrite (exec_outsec_err _ _ _ _ _ _ _ _ _ _ _ _ Ev).
+        cbn [add_err l_errors]. apply in_or_app. right. left. reflexivity.
+      + apply run_find_sec_none; [reflexivity|]. unfold A1.
+        rewrite !flat_map_app, makes_sec_begin, (makes_sec_plain cls (pl_class_part _ _ _ _ _ _ Ec)),
+          (makes_sec_plain _ (pl_seg_head _ _)), (makes_sec_plain ks (pl_kind_start _ _ _ _)).
+        cbn [app]. rewrite ?app_nil_r. exact Fr1.
+    - rewrite EL2 in Hcnt |- *.
+      apply (outsec_groups rt stg cfg_normal seg (noload_sections seg) ws2 body2 wsb (noload_name seg)
+                           None None true A2 B2 (init_state u) eq_refl Hg2).
+      + intros sec x Hs Hx. apply (Hcnt sec x); [apply in_or_app; right; exact Hs | exact Hx].
+      + exact Hu.
+      + intros e Ev. cbn [outsec_vma] in Ev. discriminate Ev.
+      + apply run_find_sec_none; [reflexivity|]. unfold A2.
+        rewrite !flat_map_app, makes_sec_begin, (makes_sec_plain cls (pl_class_part _ _ _ _ _ _ Ec)),
+          (makes_sec_plain _ (pl_seg_head _ _)), (makes_sec_plain ks2 (pl_kind_start _ _ _ _)).
+        rewrite E1, !flat_map_app, (makes_sec_plain ks (pl_kind_start _ _ _ _)),
+          (makes_sec_plain ke (pl_kind_end _ _ _ _)).
+        cbn [app flat_map makes_sec O1]. rewrite ?app_nil_r. intro Hbad. apply in_app_or in Hbad.
+        destruct Hbad as [Hbad|[Eq|[]]]; [exact (Fr2 Hbad) | exact (alloc_noload_neq seg Eq)].
+  Qed.
+End DocGroups.
+
+Theorem document_groups_layout d rt w u ext0 seg :
+  gen_normal d rt = Ok w -> doc_link_wf d rt = true ->
+  Forall (fun x => 0 <= u_size x) u ->
+  In seg (included rt (doc_segments d)) ->
+  let sty := linker_symbols_style (doc_settings d) in
+  let st' := layout (wo_script w) u ext0 in
+  ~ In (LForwardRef (alloc_name seg)) (l_errors st') ->
+  SegmentGroups sty st' seg.
+Proof.
+  intros Hg Hwf Hu Hin sty st' Herr. unfold st', layout in *.
+  apply (document_groups _ _ _ _ d rt w u seg Hg Hwf Hu Hin). exact Herr.
+Qed.
